@@ -3,8 +3,8 @@
 import json
 
 MD = {"module": "memutils", "pkg": "metadata"}
-def job(entry, q, t, **kw):
-    d = dict(MD); d.update(kw); d.update({"entry": entry, "cfgs_quick": q, "cfgs_thorough": t}); return d
+def job(entry, q, t, deep=(), **kw):
+    d = dict(MD); d.update(kw); d.update({"entry": entry, "cfgs_quick": q, "cfgs_thorough": t, "cfgs_deep": list(deep)}); return d
 
 BLOCK_ASSUME = ["granularity handler without rules (granularity 1) unless stated", "default build (DebugMargin 0)",
                 "user data is never nil (the linear algorithm uses nil as its free marker)", "alignment is a power of two",
@@ -47,7 +47,7 @@ checks["C13"] = {
  "assumptions": BLOCK_ASSUME, "outside": OUT + "; stale handles; alignment 0"}
 checks["C16"] = {
  "level": "model_checking",
- "jobs": [job("Verif_C16_Linear", [0, 2, 3, 4, 7, 8], [0, 1, 2, 3, 4, 5, 6, 7, 8])],
+ "jobs": [job("Verif_C16_Linear", [0, 2, 3, 4, 7, 8], [], deep=[0, 1, 2, 3, 4, 5, 6, 7, 8])],
  "bounds_quick": LIN_Q + "; " + LIN_RECIPES + " (2 operations after a recipe); success flag and granted offset of every request, and acceptance of every free, compared in lock-step with an independent reference model (sets of live entries; no lazy deletion, no compaction) written from the property statement",
  "bounds_thorough": "4 operations (3 after a recipe), block sizes 100 and 128, compaction family",
  "assumptions": BLOCK_ASSUME + ["granularity 1: no conflict relation in force (granularity bumps are checked against the page rule by C09)"], "outside": OUT}
@@ -65,8 +65,8 @@ checks["C18"] = {
  "assumptions": BLOCK_ASSUME, "outside": OUT}
 
 DF = {"module": "memutils", "pkg": "defrag"}
-def djob(entry, q, t):
-    d = dict(DF); d.update({"entry": entry, "cfgs_quick": q, "cfgs_thorough": t}); return d
+def djob(entry, q, t, deep=()):
+    d = dict(DF); d.update({"entry": entry, "cfgs_quick": q, "cfgs_thorough": t, "cfgs_deep": list(deep)}); return d
 DEFRAG_ASSUME = ["BlockList and move handler written in the harness from the documentation of defrag.BlockList / DefragmentationMove (mirrors vam's use)", "TLSF blocks of 256 bytes, granularity 1", "default build"]
 DEFRAG_B = "real MetadataDefragContext over an in-harness BlockList of real TLSF blocks (256 bytes each): layouts 1 block x 3 allocations, 2 blocks x (2,1), 3 blocks x (1,1,1), symbolic sizes, one allocation freed (any); both algorithms; up to 2 passes; per pass one symbolic-free decision copy/ignore/destroy applied to all moves"
 checks["C07"] = {
@@ -84,8 +84,8 @@ checks["C15"] = {
  "outside": "termination for larger shapes; limits of 0 (vam replaces 0 by MaxInt before calling memutils)"}
 
 VM = {"module": "vam", "pkg": "."}
-def vjob(entry, q, t):
-    d = dict(VM); d.update({"entry": entry, "cfgs_quick": q, "cfgs_thorough": t}); return d
+def vjob(entry, q, t, deep=()):
+    d = dict(VM); d.update({"entry": entry, "cfgs_quick": q, "cfgs_thorough": t, "cfgs_deep": list(deep)}); return d
 VAM_ASSUME = ["simulated Vulkan device written from the Vulkan contract of the driver calls vam uses (harness/vam/sim.go): live memory objects, mapping state, bound resources, valid-usage rules named by C08; no real driver behaviour is claimed",
               "device layout: heap 0 = 2048 bytes (type 0 DEVICE_LOCAL, preferred block 256), heap 1 = 8192 bytes (type 1 HOST_VISIBLE|HOST_COHERENT, type 2 HOST_VISIBLE|HOST_CACHED, preferred block 1024); variants: granularity 1/1024, nonCoherentAtomSize 1/64, heap limits, maxMemoryAllocationCount, an excluded AMD device-coherent type",
               "API version 1.0 without extensions (dedicated-allocation, bind2, memory-budget, priority extensions off)", "allocator internally synchronised (mutexes modelled as a lock-state machine; self-deadlock and unlock-of-unlocked are reported as panics)",
@@ -138,7 +138,7 @@ checks["C14"] = {"level": "model_checking",
 checks["C15"]["jobs"] += [vjob("Verif_C15_VDefrag", [0], [0, 32]), vjob("Verif_C15_VReuse", [0, 32], [0, 32])]
 checks["C15"]["bounds_quick"] += " vam layer: a DefragmentationContext reused for a second run vs. a fresh one on an identical world (two worlds built from the same symbolic sizes); final statistics of a complete run equal the moves carried out (" + VDEF + ")"
 checks["C19"] = {"level": "model_checking",
- "jobs": [vjob("Verif_C19_Select", [0, 12], [0, 1, 4, 8, 12, 13, 2]), vjob("Verif_C19_Fallback", [0], [0, 2])],
+ "jobs": [vjob("Verif_C19_Select", [0, 12], [0, 1, 4, 8, 12, 13, 2]), vjob("Verif_C19_Fallback", [0], [], deep=[0, 2])],
  "bounds_quick": "memory type table of 3 types with symbolic 8-bit property flags (device-local, host-visible, coherent, cached, lazily-allocated, protected, AMD coherent/uncached), symbolic caller mask, requirement mask, usage mode 0..4, host-access flags, required and preferred flags, optional symbolic resource-usage word; discrete and integrated device, with and without the AMD extension; every clause of the statement is asserted against a specification written from the property text",
  "bounds_thorough": "tables of 4, 5 and 6 types",
  "assumptions": ["property flags restricted to the 8 defined low bits", "single heap", "fallback clause: request with two eligible host-visible types sharing a heap, every AllocateMemory call may fail (up to 8 faults): a failing request must have attempted both types"], "outside": "more than 6 memory types; fallback among more than two eligible types"}
@@ -154,6 +154,35 @@ checks["C12"] = {"level": "exploration",
  "bounds_thorough": "same pairs (the thorough tier validates more schedules natively)",
  "assumptions": VAM_ASSUME + ["sequentially consistent atomics; happens-before edges from mutexes (RLock treated like Lock), atomics, sync.Pool, goroutine start and join", "the simulated driver is internally locked (as a Vulkan driver is thread-safe for distinct objects); its lock adds happens-before edges that can hide a race between accesses separated by driver calls on both sides", "race monitor granularity: heap slots reached through loads and stores; element accesses inside append/copy and map operations are not monitored"],
  "outside": "more than two goroutines; longer operation sequences per goroutine; schedules with more than 2 pre-emptions; pre-emption between two plain memory accesses (only relevant for racy code, which the monitor reports anyway); BuildStatsString; weak-memory effects; this is bounded schedule exploration, not a proof of race freedom"}
+
+# ---- thorough tier: description generated from the job lists ------------------------------------------------------
+LEGEND = {
+ "Linear": "linear cfg: 0 empty 100-byte block, 1 empty 128-byte block, 2 ring buffer L3(3,j,m), 3 double stack L2(2,2), 4 stack L1(4) with freed middle entries, 5/6 compaction family with/without an upper stack, 7 small ring L3(2,1,2), 8 ring L3(2,1,3) with one symbolic size",
+ "TLSF": "TLSF cfg = 10*scenario + block: block 0/1/2/3 = 256/320/1000/4096 bytes; scenario 0 history from the empty block, 1 recipe T(n,F,pi), 2 three holes in one free list, 3 one hole at an unaligned offset (C05 search: 0/1 recipes T(3)/T(2), 2 bucket-boundary recipe, 3 its light variant, 4 merge recipe)",
+ "Defrag": "planner cfg = algorithm (0 Fast, 1 Full) + 2*layout (0: one block, 1: two blocks, 2: three blocks) + 6*(symbolic per-pass limits)",
+ "vam": "vam cfg: low 5 bits = device variant (1 granularity 1024, 2 nonCoherentAtomSize 64, 4 heap size limits, 8 maxMemoryAllocationCount 2, 16 excluded AMD device-coherent type); higher bits select the scenario of the entry (Hist: 32 custom pools, 64 multi-allocations, 96 pool index sweep; Faults: cfg/32 = operation 0..7; Maps: 32 non-coherent type, 64 flush focus, 128 odd-sized pool block, 256 hysteresis window-phase sweep; VDefrag: 32 Full algorithm, 64/128/192 layouts; Pages: cfg%2 linear, cfg/2%3 granularity 16/1024/4096, 6+ page-boundary recipe; Select: N=3+cfg%4 types, 4 integrated GPU, 8 AMD extension)",
+}
+def legend_for(entry):
+    if "Linear" in entry: return "Linear"
+    if "TLSF" in entry: return "TLSF"
+    if entry.startswith("Verif_Defrag"): return "Defrag"
+    return "vam"
+for cid, c in checks.items():
+    parts, deep, legs = [], [], []
+    for j in c["jobs"]:
+        if j["cfgs_thorough"]:
+            parts.append("%s cfgs %s" % (j["entry"], j["cfgs_thorough"]))
+        if j["cfgs_deep"]:
+            deep.append("%s cfgs %s" % (j["entry"], j["cfgs_deep"]))
+        l = legend_for(j["entry"])
+        if l not in legs: legs.append(l)
+    t = ""
+    if parts:
+        t += "History depths, symbolic inputs and oracles as in the quick tier, on more configurations (block sizes, recipes, device variants): " + "; ".join(parts) + ". "
+    if deep:
+        t += "Deeper variant (one more operation or call per history; " + c["bounds_thorough"] + "): " + "; ".join(deep) + ". "
+    t += "24 instead of 6 native validations per job; 480/160 instead of 40/10 queries re-decided by the other solvers. Legend: " + " | ".join(LEGEND[l] for l in legs)
+    c["bounds_thorough"] = t
 
 json.dump(checks, open("/verif/checks.json", "w"), indent=1)
 print("wrote", len(checks), "checks")
